@@ -9,7 +9,7 @@ MANIFEST = dict(
          "subscribed iff no current generation, released at 1->0 iff ResetOnRefCountZero; after a source terminal fresh or replayed execution as the flags say (latched "
          "generation absorbing); every open subscriber gets each notification exactly once; connectable: nothing before Connect, Connect idempotent, disconnect stops delivery. "
          "Tie: exhaustive + seeded event sequences x 8 flag sets x connectors x hot / synchronous (Just-like) sources, every subscriber's trace, live/total upstream counters "
-         "after each event, drop and unhandled hooks EQUAL on the real library and the model. Nested events (inside the source's Subscribe = inside R3) are modelled and tied too. The nil `sourceSubscription` "
+         "after each event, drop and unhandled hooks EQUAL on the real library and the model. The theorems quantify over NESTED sequences (events inside the source's Subscribe = inside R3, depth one), through an invariant carrying the pending creator; 'nobody listens => released' is proved on the sequences without an inner subscriber (_partial) and witnessed false outside (late release). The nil `sourceSubscription` "
          "dereference of the pinned tree is repaired (a510ca9) and the repaired behaviour is the model: it is reported as a difference if it returns. Open finding: late release "
          "(witness theorem + replay). Concurrent variants (goroutines, -race in thorough) are search/validation only.",
     technique="Lean 4 proof (invariant of an executable transition system, all configurations and event sequences) + differential correspondence; concurrent stress as search",
